@@ -214,3 +214,87 @@ contract(
     notes=['segment contract: only the final treat-as-withdraw conversion of _parse_payload; the NLRI loops above it are covered by the bounded corruption sweep'],
     canaries=[('announces = []', 'announces = announces')],
 )
+
+
+# ------------------------------------------------------------------------------------------------ the decoded-set cache (C19, C08)
+
+TAW, ASP, AS4P, MPR, MPU = 0xFFFF, 2, 17, 14, 15
+
+
+def _coll_contains(it2, o, item):
+    f = o.fields
+    r = False
+    for code, name in ((TAW, 'has_taw'), (ASP, 'has_aspath'), (AS4P, 'has_as4path'), (MPR, 'has_mpr'), (MPU, 'has_mpu')):
+        r = z_or(r, z_and(it2.equals(item, code, None), f[name]))
+    return simp(r)
+
+
+def _collection(it, name, data, ctx, maybe_none=False):
+    """an AttributeCollection with ghost fields: the bytes and session context it is the decode of"""
+    c = it.ctx
+    fields = {
+        'of_bytes': data,
+        'of_ctx': ctx,
+        'has_taw': c.fresh(name + '.taw', B),
+        'has_aspath': c.fresh(name + '.aspath', B),
+        'has_as4path': c.fresh(name + '.as4path', B),
+        'has_mpr': c.fresh(name + '.mpr', B),
+        'has_mpu': c.fresh(name + '.mpu', B),
+        'contains!': _coll_contains,
+    }
+    nonempty = c.fresh(name + '.nonempty', B)
+    if maybe_none:
+        isnone = c.fresh(name + '.none', B)
+        fields['none!'] = isnone
+        fields['bool!'] = z3.And(z3.Not(isnone), nonempty)
+    else:
+        fields['bool!'] = nonempty
+    return VObj(None, fields, name)
+
+
+def _cls_param(it, name):
+    c = it.ctx
+    prev = c.fresh_bytes('cls.previous')
+    pctx = VTuple([c.fresh('cls.previous_context.0', B), c.fresh('cls.previous_context.1', B)])
+    cached = _collection(it, 'cls.cached', c.fresh_bytes('cached.of_bytes'), VTuple([c.fresh('cached.of_ctx.0', B), c.fresh('cached.of_ctx.1', B)]), maybe_none=True)
+    return VObj(None, {'cached': cached, 'previous': prev, 'previous_context': pctx}, 'cls')
+
+
+def _parse_call(it, args, kwargs, fr, node):
+    """cls().parse(data, negotiated): a fresh collection which is the decode of exactly (data, asn4, aigp)
+    (what _parse_one's decoders read of `negotiated` for cacheable sets is asn4 and aigp: scan obligation C19:reads)"""
+    data, neg = args
+    which = it.ctx.fresh('parse!outcome')
+    it.ctx.assume(z3.And(which >= 0, which <= 1))
+    if it.ctx.branch(which == 1):
+        from pyvc.interp import Raise
+
+        raise Raise(VExc(REG.resolve_exc('Notify'), (3, it.ctx.fresh('n!sub'), 'bad')))
+    return _collection(it, 'parsed', data, VTuple([neg.fields['asn4'], neg.fields['aigp']]))
+
+
+CACHE_INV = 'implies(cls.cached is not None, cls.previous == cls.cached.of_bytes and cls.previous_context == cls.cached.of_ctx and not cls.cached.has_taw and not cls.cached.has_mpr and not cls.cached.has_mpu)'
+
+contract(
+    AC,
+    'AttributeCollection.unpack',
+    props=('C19', 'C08', 'C02'),
+    params={'cls': custom(_cls_param), 'data': bytes_(0, 65535), 'negotiated': obj(None, asn4=bool_(), aigp=bool_())},
+    requires=[CACHE_INV],
+    callees={'cls().parse': _parse_call, 'attributes.merge_attributes': noop},
+    raises=[{'exc': 'Notify', 'cover': False}],
+    ensures=[
+        # what is returned is a decode of THESE bytes under THIS session's parameters -- fresh or cached
+        'result.of_bytes == data',
+        'result.of_ctx == (negotiated.asn4, negotiated.aigp)',
+        # the class-level cache stays consistent: it only ever holds a clean (no treat-as-withdraw, no MP) decode of
+        # the bytes and context recorded next to it
+        CACHE_INV,
+    ],
+    final=[CACHE_INV],
+    canaries=[
+        ('and context == cls.previous_context', ''),
+        ('            cls.previous = data\n', '            cls.previous = cls.previous\n'),
+        ("        if Attribute.CODE.INTERNAL_TREAT_AS_WITHDRAW in attributes:\n            return attributes\n", ''),
+    ],
+)
